@@ -73,6 +73,8 @@ type DOutcome struct {
 }
 
 func checkDown(c DCase) (DOutcome, error) {
+	model.SettleShortFKs(&c.A, &c.B)
+	model.SettleShortFKs(&c.B, &c.A)
 	var out DOutcome
 	ctx := context.Background()
 	db, err := eng.New(ctx)
